@@ -352,7 +352,7 @@ def make_spec(rng, system: str, controller: str, family: str, le: bool, sup: boo
     return {"system": system, "controller": controller, "family": family, "le": int(le), "sup": int(sup),
             "steps": steps, "time": hexf(ttime), "training": [[hexf(v) for v in r] for r in training],
             "xs": [], "models": ["stable", "rot", "same"] if quick else ["stable", "rot", "grow", "same"],
-            "tlimit": 0.1 if quick else 1.0}
+            "tlimit": 0.1 if quick else 0.3}
 
 
 def make_pool(rng, ctx: Ctx, quick: bool) -> None:
@@ -388,11 +388,14 @@ def make_pool(rng, ctx: Ctx, quick: bool) -> None:
 def prepare(ck: Check, ctx: Ctx) -> dict[int, list[int]]:
     """Warm up the kernels (untimed), tabulate every (equations, x) pair; returns usable x ids per equations id."""
     import numpy as np
-    from moptipyapps.dynamic_control.ode import run_ode
+    from moptipyapps.dynamic_control.ode import diff_from_ode, j_from_ode, run_ode
     s, c = ctx.system, ctx.controller
-    for eq in ctx.eqs:   # compile outside of any timer
-        run_ode(s.training_starting_states[0], eq, c.controller, np.zeros(c.param_dims), c.control_dims,
-                s.training_steps, min(s.training_time, 1e-3))
+    for eq in ctx.eqs:   # compile every kernel outside of any timer (an alarm inside numba's compiler is unsafe)
+        ode = run_ode(s.training_starting_states[0], eq, c.controller, np.zeros(c.param_dims), c.control_dims,
+                      s.training_steps, min(s.training_time, 1e-3))
+        j_from_ode(ode, s.state_dims, s.state_dims_in_j, s.gamma)
+        with np.errstate(all="ignore"):
+            diff_from_ode(ode, s.state_dims)
     usable: dict[int, list[int]] = {}
     for e in range(len(ctx.eqs) if ctx.sup else 1):   # without model support the object never leaves raw mode
         usable[e] = []
@@ -505,6 +508,9 @@ def judge(ck: Check | None, ctx: Ctx, ops, garbage, mtoks, itoks, info, stream: 
             if d.get("rows") is not None:
                 if d["rows"] != d["rows_df"]:
                     v.append(("sc_df_rows", "state+control and differential arrays have different row counts"))
+                if not d.get("had_prev") and d["rows"] > 0 and d["raw_evals"] == 0:
+                    v.append(("grew_outside_raw", f"get_differentials returned {d['rows']} rows although no real-system "
+                                                  f"evaluation happened since construction / initialize()"))
                 if d.get("had_prev"):
                     if not d["prefix_ok"]:
                         v.append(("rows_lost", f"recorded data is no longer an extension of what get_differentials "
@@ -598,7 +604,7 @@ def instance_plan(ck: Check):
             rng.shuffle(f)
             combos = [(c, f[i % len(f)]) for i, c in enumerate(ctrls)]
         else:
-            combos = [(c, f) for c in ctrls for f in fams]
+            combos = [(c, f) for c in ctrls for f in rng.sample(fams, 2)]
             rng.shuffle(combos)
         lst = []
         for c, f in combos:
@@ -620,7 +626,7 @@ def streams(ck: Check) -> None:
     ck.compare("constants", "fomC", consts, f"c1e100={code(1e100)} c1e200={code(1e200)} cnegzero={code(-0.0)}")
     pending: list = []
     t_start = time.time()
-    budget = 45.0 if quick else 900.0
+    budget = 45.0 if quick else 1000.0
 
     # (2) exhaustive small scope: every history of length <= 3 (quick) / 4 (thorough) over a 7-letter alphabet
     for le in (False, True):
@@ -629,7 +635,11 @@ def streams(ck: Check) -> None:
         ctx = Ctx(spec)
         make_pool(rng, ctx, quick)
         usable = prepare(ck, ctx)
-        good = next(x for x in usable[0] if ctx.tab[(0, x)]["first_bad"] is None)
+        good = next((x for x in usable[0] if ctx.tab[(0, x)]["first_bad"] is None), None)
+        if good is None:
+            ck.notes.append("exhaustive stream skipped: no well-behaved parameter vector survived the time limit")
+            ck.count("exhaustive_skipped")
+            continue
         mid = next((x for x in usable[0] if (ctx.tab[(0, x)]["first_bad"] or 0) >= 1), usable[0][-1])
         good2 = next((x for x in usable[0] if x != good and ctx.tab[(0, x)]["first_bad"] is None), good)
         alpha = [f"E{good}", f"E{mid}", f"E{good2}", "I", "R", "M1", "G"]
@@ -650,7 +660,7 @@ def streams(ck: Check) -> None:
 
     # (4)+(3) boundary families and structured random histories on every planned instance
     plan = instance_plan(ck)
-    per_inst = 9 if quick else 24
+    per_inst = 9 if quick else 14
     hid = 0
     for idx, (sysname, cname, fam, le, sup) in enumerate(plan):
         if time.time() - t_start > budget:
